@@ -85,6 +85,16 @@ def spaces(tier):
                 "par bits, --jobs 2, every completion order, at most one failed launch, all exit 0", depth=10,
                 preset={"e0_4": True, "e1_4": True, "e2_4": True, "e3_4": True, "k0": 0, "k1": 0, "k2": 0, "k3": 0, "k4": 1,
                         "rev4": False})]
+    from vlib import induct
+    sp.append(Space("inductive-launch-step", induct.launch_step,
+                    "ONE real _launch_ops_if_able step from an arbitrary executor state satisfying the representation invariant: "
+                    "1..4 slots, 0..slots operations in flight (slots any injective assignment, free list in any order), "
+                    "running_parallel bit, 0..3 ready operations (par bits, failed-dependency bits); covers runs of any length and "
+                    "graphs of any size", depth=6, goals=["inductive step launches an operation", "inductive step launches two operations"]))
+    sp.append(Space("inductive-wait-step", induct.wait_step,
+                    "ONE real _wait_for_next_inflight_op step from an arbitrary valid state: which operation finishes, its exit "
+                    "status (symbolic), 0..1 dependent with 0..1 other unfinished dependency", depth=6,
+                    goals=["inductive step completes an operation"]))
     if tier == "thorough":
         sp.append(Space("n4-subprocess-j3", make(4, ("run_experiment", "run_command"), 3, ambient_bit=False),
                         "N=4, kinds {run_experiment, run_command}, jobs 1..3, every completion order", depth=10, tiers=("thorough",)))
